@@ -57,7 +57,7 @@ pub fn run(a: &Args, out: &mut impl Write) {
     let iters = a.n as usize;
     for &t in &[2usize, 4, 8, 16] {
       let seed0 = a.seed;
-      let (text, code, sig) = crate::hist::in_child(move |w| {
+      let (text, code, sig) = crate::hist::in_child_deadline(1800, move |w| {
         let a = Args { seed: seed0, n: iters as u64, tier_thorough: false, rest: vec![] };
         let out = w;
         let log: Arc<Mutex<Vec<String>>> = Arc::new(Mutex::new(Vec::new()));
